@@ -245,6 +245,11 @@ def rule_c(ctx):
         rep.ob('CP', 'core.Dataset.prefetch::passes(catch_filter_exception)', ok, pc,
                '' if ok else 'Dataset.prefetch does not hand catch_filter_exception to the stage: the selection is ignored')
     # consumer drops by identity
+    # the marker may be compared under its local name or under the (module level) name it is bound to
+    for s_ in list(sentinels):
+        for d in flow.assigned_names(fn).get(s_, []):
+            if isinstance(d, ast.Name):
+                sentinels.add(d.id)
     cmps = [n for n in A.walk_local(fn) if isinstance(n, ast.Compare) and any(
         isinstance(x, ast.Name) and x.id in sentinels for x in [n.left] + n.comparators)]
     rep.floor('sentinel comparisons in PrefetchDataset.__iter__', len(cmps), 1)
